@@ -79,6 +79,8 @@ var c18Alphabet = []c18Op{
 	{"delete", "l=b/n", ""},
 	{"delete", "l=b/m", ""},
 	{"upsert", "l=b", `{"m":{"z":"a"}}`},
+	{"delete", "", ""},
+	{"replace", "", `{"c":{"b":1},"l":[{"k":"c","v":3}]}`},
 }
 
 // operations of the held-list histories (besides the list-level ones of c18Alphabet): entries are
@@ -348,12 +350,22 @@ func c18Step(c c18Case, inst *c18Inst, op c18Op) []eng.StepViol {
 	case "insert":
 		apply(model.Insert, op.Path, op.Doc)
 	case "delete":
+		if op.Path == "" {
+			// the root stays, what it holds goes
+			want = model.NewTree()
+			break
+		}
 		modelDelete(m, want, op.Path)
 	case "delete-collected":
 		for _, p := range strings.Split(op.Path, "+") {
 			modelDelete(m, want, p)
 		}
 	case "replace":
+		if op.Path == "" {
+			want = model.NewTree()
+			apply(model.Insert, "", op.Doc)
+			break
+		}
 		modelDelete(m, want, op.Path)
 		parent, _ := splitLast(op.Path)
 		if (entryPoint{op.Path}).kind(m) == "entry" {
@@ -384,12 +396,32 @@ func c18Step(c c18Case, inst *c18Inst, op c18Op) []eng.StepViol {
 	if kd, w := model.Diff(m.DataDefinitions(), want, got, o, ""); kd != "" {
 		return []eng.StepViol{{Sig: site + "/wrong-result/" + kd, What: fmt.Sprintf("%s: %s; want %s got %s", desc, w, want, got)}}
 	}
+	if strings.HasPrefix(c.Store, "node-struct") && !c.Held {
+		// nodeutil.Node over a Go struct takes an empty slice or map for no list (nodeutil.Reflect
+		// tells nil from empty)
+		pruneEmptyLists(want)
+	}
 	inst.model = want
 	// Find agreement for every key of the alphabet
 	if v := c18FindAll(c, inst, site, desc); v != nil {
 		return v
 	}
 	return nil
+}
+
+func pruneEmptyLists(t *model.Tree) {
+	for id, l := range t.Lists {
+		if len(l.Entries) == 0 {
+			delete(t.Lists, id)
+			continue
+		}
+		for _, e := range l.Entries {
+			pruneEmptyLists(e)
+		}
+	}
+	for _, c := range t.Conts {
+		pruneEmptyLists(c)
+	}
 }
 
 func c18Target(m *meta.Module, op c18Op) string {
